@@ -1001,7 +1001,7 @@ def loop_gap(run, tier):
 
 def check(tier, seed):
     run = Run('C05', tier, seed)
-    common.standard_build(run, ['T2'])
+    common.standard_build(run, ['T2', 'T14'])
     table_check(run)
     campaign(run, tier, seed, ('C05',))
     loop_gap(run, tier)
